@@ -121,6 +121,9 @@ func handlePUSH(params x86genParams, ctx *CodeGenContext) ([]byte, error) {
 			}
 		}
 
+		// 即値はモードのオペランドサイズで積む。Require66h は値の大きさのクラスで判定するため、
+		// 下で出力する即値の長さと食い違うので、ここでは使わない。
+		code = code[:0]
 		if immVal >= -128 && immVal <= 127 { // Check if imm8 fits
 			code = append(code, 0x6A, byte(immVal)) // Append opcode and immediate
 			return code, nil
